@@ -1301,7 +1301,12 @@ class Builder(object):
                 index += 1
 
                 if connective == 'at':
-                    period = max(0.0, Convert2Num(tokens[index]))
+                    period = Convert2Num(tokens[index])
+                    if isinstance(period, complex):
+                        msg = "ParseError: Building verb '%s'. Period '%s' is not a real number" % \
+                            (command, tokens[index])
+                        raise excepting.ParseError(msg, tokens, index)
+                    period = max(0.0, period)
                     index +=1
 
                 elif connective == 'be':
@@ -2895,7 +2900,12 @@ class Builder(object):
                 if connective in ['at']:
                     # parse period direct or indirect
                     try:  #parse direct
-                        period = max(0.0, Convert2Num(tokens[index]))  # period is number
+                        period = Convert2Num(tokens[index])  # period is number
+                        if isinstance(period, complex):
+                            msg = ("Error building {0}. Period '{1}' is not a real"
+                                   " number.".format(command, tokens[index]))
+                            raise excepting.ParseError(msg, tokens, index)
+                        period = max(0.0, period)
                         index += 1  # eat token
 
                     except ValueError:  # parse indirect
